@@ -103,6 +103,8 @@ def apply_request(beh, c, via='api'):
     if err is not None:
         return (('subset', 'refused-valid', err, feat), 'request %r on %d subsets raised %s' % (c['req'], c['n'], err))
     try:
+        # another extraction from the same message BEFORE the first one is encoded: each result is data of its own
+        src.subset([c['selected'][-1]] if len(c['selected']) > 1 else [(c['selected'][0] + 1) % c['n']])
         out = Encoder().process(j)
         res = Decoder().process(out.serialized_bytes)
     except Exception as e:
